@@ -335,6 +335,16 @@ func (r *ReadPaths) walk(v ssa.Value, fr *rpFrame) {
 		return
 	case *ssa.MakeSlice:
 		r.allocContents(nil, x, fr, 0)
+	case *ssa.MakeMap:
+		// contents of a locally built map
+		if x.Referrers() != nil {
+			for _, ref := range *x.Referrers() {
+				if mu, ok := ref.(*ssa.MapUpdate); ok && mu.Map == ssa.Value(x) {
+					r.walk(mu.Key, fr)
+					r.walk(mu.Value, fr)
+				}
+			}
+		}
 	case *ssa.UnOp:
 		if x.Op.String() == "*" {
 			if p := r.pathOf(x.X, fr, 0); p != "" {
